@@ -12,7 +12,9 @@ No sampling, no solver: equality of canonical forms only.
 """
 from fractions import Fraction
 
-from .poly import Poly, Atom, CFG, all_atoms
+import os
+import time
+from .poly import Poly, Atom, CFG, all_atoms, WorkExceeded
 
 EQUAL, DIFFERENT, UNKNOWN = "equal", "different", "unknown"
 
@@ -292,14 +294,27 @@ def normal(p, quats=(), lin=False):
     return p
 
 
+DECISION_SECONDS = float(os.environ.get("VERIF_DECISION_SECONDS", "60"))
+
+
 def decide(p, q, quats=(), maxdeg=None):
+    """EQUAL / DIFFERENT / UNKNOWN.  A single decision is bounded in wall-clock time: UNKNOWN when the bound is hit
+    (never a verdict), so that a check on an unforeseen program ends in ANALYSIS-INCOMPLETE instead of hanging."""
     old = CFG.maxdeg
+    old_deadline = CFG.deadline
     if maxdeg:
         CFG.maxdeg = maxdeg
+    if old_deadline is None:
+        CFG.deadline = time.time() + DECISION_SECONDS
     try:
         return _decide(p, q, quats)
+    except WorkExceeded:
+        if old_deadline is not None:
+            raise
+        return UNKNOWN
     finally:
         CFG.maxdeg = old
+        CFG.deadline = old_deadline
 
 
 def _unify_half_angles(a, b):
@@ -391,7 +406,32 @@ def _decide(p, q, quats):
     ga, gb = generators(a), generators(b)
     if ga == gb:
         return DIFFERENT
+    if not quats and _free_trig_ring(a, b):
+        return DIFFERENT
     return UNKNOWN
+
+
+def _free_trig_ring(a, b):
+    """True when every atom of a and b is a symbol or sin/cos of a bare symbol, and sin occurs to degree <= 1.  Then
+    both are in Q[x][cos x_k, sin x_k]/(sin^2 + cos^2 - 1) written on the basis {cos^n, sin cos^n}, which is a basis
+    of that ring and the ring embeds in the functions of x: different normal forms are different functions, whether
+    or not the two sides mention the same atoms (e.g. a non-zero form against 0)."""
+    for p in (a, b):
+        for m in p.t:
+            for at, e in m:
+                if at.kind == "sym":
+                    if e < 0:
+                        return False
+                    continue
+                if at.kind not in ("sin", "cos") or e < 0 or (at.kind == "sin" and e > 1):
+                    return False
+                arg = at.key[0]
+                if not isinstance(arg, Poly) or len(arg.t) != 1:
+                    return False
+                (mono, c), = arg.t.items()
+                if c != 1 or len(mono) != 1 or mono[0][1] != 1 or mono[0][0].kind != "sym" or mono[0][0].key[0] == "pi":
+                    return False
+    return True
 
 
 def decide_mat(A, B, quats=()):
